@@ -93,6 +93,13 @@ def ccoin_opt(c):
 def ccriteria_msg(dc):
     if dc is None:
         return "DCNone"
+    # criteria outside the protobuf JSON range are recorded in raw form (harness/chain/trace.go rawCriteriaJSON)
+    if dc.get("min_start_date_raw"):
+        r = dc["min_start_date_raw"]
+        return "(DCMinStart {| secs := %s; nanos := %s |})" % (cZ(int(r["seconds"])), cZ(int(r["nanos"])))
+    if dc.get("start_date_window_raw"):
+        r = dc["start_date_window_raw"]
+        return "(DCWindow %s %s)" % (cZ(int(r["seconds"])), cZ(int(r["nanos"])))
     if dc.get("min_start_date"):
         return "(DCMinStart %s)" % cts_str(dc["min_start_date"])
     if dc.get("start_date_window"):
